@@ -15,12 +15,15 @@ Definition no_err (o : op) : bool :=
   end.
 Definition rq_at (b : N) : rq := mkRq b [] None 0 false [] [] false.
 
-(* For every well-formed history -- any number of requests, any completion order, handlers ready at
+(* [N.of_nat (length ops) < W64]: fewer than 2^64 operations, hence a queue shorter than 2^64 slots --
+   the usize index arithmetic of the Rust aliases slots beyond that (not reachable: a VecDeque of 2^64
+   entries does not exist).
+   For every well-formed history -- any number of requests, any completion order, handlers ready at
    once or later -- and every starting value of the wrapping base counter: what has been written
    is exactly the responses of the longest prefix of requests whose handlers have all completed, in
    arrival order; the queue indexing never goes out of bounds and no error is recorded. *)
 Theorem C04_resp_order : forall (b : N) (ops : list op),
-  b < W64 -> forallb no_err ops = true -> wf_history (map ev_of ops) = true ->
+  b < W64 -> N.of_nat (length ops) < W64 -> forallb no_err ops = true -> wf_history (map ev_of ops) = true ->
   let s := run_from (rq_at b) ops in
   out s = spec_written (map ev_of ops) /\ panicked s = false /\ error s = false.
 Proof. exact resp_order. Qed.
@@ -28,7 +31,7 @@ Print Assumptions C04_resp_order.
 
 (* none lost, none duplicated: once every handler has completed, every response has been written *)
 Theorem C04_resp_complete : forall (b : N) (ops : list op),
-  b < W64 -> forallb no_err ops = true -> wf_history (map ev_of ops) = true ->
+  b < W64 -> N.of_nat (length ops) < W64 -> forallb no_err ops = true -> wf_history (map ev_of ops) = true ->
   all_done (arrivals (map ev_of ops)) (map ev_of ops) = true ->
   out (run_from (rq_at b) ops) =
     flat_map (fun i => match done_in i (map ev_of ops) with Some (ASome x) => [x] | _ => [] end)
@@ -39,7 +42,7 @@ Print Assumptions C04_resp_complete.
 (* after a handler error (the connection is no longer healthy) what was written is still a prefix
    of the arrival-ordered responses: nothing is ever written out of order *)
 Theorem C04_prefix_after_error : forall (b : N) (ops : list op),
-  b < W64 -> wf_history (map ev_of ops) = true ->
+  b < W64 -> N.of_nat (length ops) < W64 -> wf_history (map ev_of ops) = true ->
   exists rest, out (run_from (rq_at b) ops) ++ rest =
     flat_map (fun i => match done_in i (map ev_of ops) with Some (ASome x) => [x] | _ => [] end)
              (arrivals (map ev_of ops)).
